@@ -4,10 +4,12 @@
    followed by a newline, in order, immediately followed by `pub struct|enum <name>`; the
    attribute text is the token's `src` unchanged.  (That the token's `src` is the source slice
    is the tokenizer model's finish_outer_attribute; the validated file keeps the attribute lists:
-   C10_validated_file_is_the_input.)  "Nowhere else" and byte-exactness on the real output are
-   decided by the check's oracle on the emitted text. *)
+   C10_validated_file_is_the_input.)  And the attribute text of a token IS the source text at the
+   token's byte offset (C12_attribute_text_is_the_source_text, from the lexical specification).
+   "Nowhere else" and byte-exactness on the real output are decided by the check's oracle on the
+   emitted text. *)
 From Coq Require Import List.
-From Kiki Require Import Base.Ord Base.Chars Data Emit.Emit Emit.EmitProofs.
+From Kiki Require Import Base.Ord Base.Chars Data Lex.Model Lex.Spec Emit.Emit Emit.EmitProofs.
 
 Theorem C12_attributes_verbatim_one_per_line : forall attrs,
   attributes_src attrs = concat (map (fun a => at_src a ++ nl) attrs).
@@ -19,5 +21,10 @@ Theorem C12_attributes_immediately_before_their_type : forall f n s, nonterminal
           ++ (match n with NStruct _ => S_ "pub struct " | NEnum _ => S_ "pub enum " end) ++ nt_name n ++ rest.
 Proof. exact typedef_starts_with_its_attributes. Qed.
 
+Theorem C12_attribute_text_is_the_source_text : forall src toks a, tokenize src = Ok toks ->
+  In (TOuterAttribute a) toks -> exists pre post, src = pre ++ at_src a ++ post /\ at_pos a = blen pre.
+Proof. exact (fun src toks a H Hin => tokens_are_where_they_say src toks H (TOuterAttribute a) Hin). Qed.
+
 Print Assumptions C12_attributes_verbatim_one_per_line.
+Print Assumptions C12_attribute_text_is_the_source_text.
 Print Assumptions C12_attributes_immediately_before_their_type.
